@@ -17,3 +17,5 @@ func TestC01(t *testing.T) { harness.Main(t, "C01", C01Workloads()) }
 func TestC04(t *testing.T) { harness.Main(t, "C04", C04Workloads()) }
 
 func TestC09(t *testing.T) { harness.Main(t, "C09", C09Workloads()) }
+
+func TestC06(t *testing.T) { harness.Main(t, "C06", C06Workloads()) }
